@@ -506,3 +506,23 @@ PROPS["C10"] = Prop(
          "oracle: every sensitivity to fx_abc is 0 or +-rate/quote",
     classify=_cls_fx, mode="close", exhaustive=lambda tier: False, trusted=_fx_trusted, assumptions=_dual_assume,
     oracle=_oracle_fx)
+
+
+# ---------------------------------------------------------------------------------------------
+# linear solver
+
+def _cls_c13(t, impl):
+    if t[0] != "solve":
+        return None, False
+    return "solve:%s:%sx%s:lsq=%s:%s" % (t[1], t[2], t[3], t[4], impl.split(" ", 1)[0]), impl.startswith("X ")
+
+
+PROPS["C13"] = Prop(
+    rule="random well-conditioned systems of size 1..8 (tall up to 12 rows for least squares), entries float / Dual / "
+         "Dual2 in the pairings the API allows (dsolve: same kind for A and b; fdsolve: float A with Dual/Dual2 b), zero "
+         "patterns forcing row swaps in first/middle/last columns, ties in |pivot| (last maximum), random tagging; each "
+         "square system also solved with its rows permuted; compared: solution values, gradients and Hessians by name",
+    classify=_cls_c13, mode="close", rtol=1e-7, exhaustive=lambda tier: False,
+    trusted=["hand-written model of rust/dual/linalg/linalg_dual.rs and linalg_f64.rs (lean/RateslibModel/Model/Linalg.lean: "
+             "matrices as functions, loops as folds), tied to the code by the correspondence run"] + _dual_trusted[:1],
+    assumptions=_dual_assume + ["conditioning / rounding not modelled; NaN handling outside the generators"])
